@@ -165,7 +165,7 @@ def case_strategy():
         lambda t: {**t[0], 'order': t[1], 'cross': t[2] if t[2] != t[0]['spec']['prefix'] else None})
 
 
-def run_cases(ctx, name, cases, check):
+def run_cases(ctx, name, cases, check, minimise=True):
     """Shared by the compile-based checks: run cases on 16 threads, bucket failures by signature."""
     work = tempfile.mkdtemp(prefix=f'vf_{ctx.prop.lower()}_')
     results = []
@@ -194,7 +194,35 @@ def run_cases(ctx, name, cases, check):
             ctx.excluded[sig] += 1
             continue
         seen.add(sig)
-        ctx.add_violation(name, res, case)
+        small = case
+        if minimise and 'sm' in case and not (res.sig or '').startswith('harness'):
+            small = shrink_case(ctx, case, check, res.sig)
+        ctx.add_violation(name, res, small)
+
+
+def shrink_case(ctx, case, check, sig):
+    """Delta-debug the (model, configuration) of a failing case; keeps the case-specific extras."""
+    from vf import minimise as mini
+    work = tempfile.mkdtemp(prefix=f'vf_{ctx.prop.lower()}_min_')
+    counter = [0]
+
+    def same_failure(cand):
+        counter[0] += 1
+        d = os.path.join(work, f'm{counter[0]}_{id(cand)}')
+        os.makedirs(d, exist_ok=True)
+        try:
+            check(cand, d)
+            return False
+        except Fail as f:
+            return f.sig == sig
+        except Exception:  # pylint: disable=broad-except
+            return False
+        finally:
+            shutil.rmtree(d, ignore_errors=True)
+    try:
+        return mini.shrink(case, same_failure, rounds=5 if ctx.quick else 30)
+    finally:
+        shutil.rmtree(work, ignore_errors=True)
 
 
 def run(ctx):
